@@ -10,7 +10,7 @@
 From Coq Require Import ZArith QArith Qround Qabs List Bool.
 From RV Require Import Base.PyNum Timing.Snapper Timing.Snap Timing.TimingMap Timing.Reseat Timing.Integrate
   Formats.BMSText Formats.BMS Formats.BMSSpec Timing.Domain Timing.Domain2 Generated.Tables Proofs.BMSProofs Proofs.BMSWriteProofs
-  Proofs.BMSWriteLaneProofs Proofs.BMSWriteFinalProofs Proofs.BMSRoundTripProofs Proofs.BMSWriteAnyOrderProofs.
+  Proofs.BMSWriteLaneProofs Proofs.BMSWriteFinalProofs Proofs.BMSRoundTripProofs Proofs.BMSWriteAnyOrderProofs Proofs.BMSWriteGuardsProofs.
 From Coq Require Import Sorting.Permutation.
 Import ListNotations.
 Open Scope Z_scope.
@@ -278,3 +278,24 @@ Example C05_any_order_nonvacuous :
                        | None => false
                        end) [w_swapped; w_three] = true.
 Proof. vm_compute. reflexivity. Qed.
+
+(* ---- the reader's guards of the written file, derived from the chart alone (Proofs/BMSWriteGuardsProofs.v), rows in any
+   order: the note lines are written in (measure, channel, line length) order, so the objects of the text come with
+   non-decreasing measures; tempo rows lie on measure lines, so every tempo object but the one at position 0 sits at
+   measure >= 1; hence the tempo object at the origin is the FIRST tempo object the text lists, whatever ids the rows got,
+   and the tempo objects are pairwise on the grid.  The round trip is left with the single hypothesis text_domb. ---- *)
+Theorem C05_write_note_lines_sorted : forall rows ls, Forall row_wf rows -> write_note_lines rows = Some ls ->
+  Sorted.StronglySorted (fun a b => o_measure a <= o_measure b) (flat_map objs_of_line ls).
+Proof. exact write_note_lines_sorted. Qed.
+Theorem C05_written_read_guards : forall (mk : Z) (lay : layout) (dflt : text) (c : wchart) (r : Q -> text) (ls : list wline),
+  write_dom_any tbl mk lay dflt c = true -> bms_write tbl lay dflt c = Some ls ->
+  read_guards tbl (map (render_with r) ls) = true.
+Proof. exact (written_read_guards tbl C05_table_ok). Qed.
+Theorem C05_bms_write_read_guarded : forall (mk : Z) (lay : layout) (dflt : text) (c : wchart) (r : Q -> text),
+  write_dom_any tbl mk lay dflt c = true -> (forall q, parse_decimal (r q) <> None) ->
+  exists ls l d, bms_write tbl lay dflt c = Some ls /\ wscript tbl c = Some l
+    /\ bms_denote lay (map (render_with r) ls) = Some d /\ written_denotes_any tbl dflt c l d
+    /\ read_guards tbl (map (render_with r) ls) = true
+    /\ forall c', text_domb lay (map (render_with r) ls) = true ->
+                  bms_read tbl lay mk (map (render_with r) ls) = Some c' -> read_back tbl dflt c l c'.
+Proof. exact (bms_write_read_guarded tbl C05_table_ok). Qed.
